@@ -18,7 +18,8 @@ LEVEL_TEXT = ('Generated inner programs (depth <= 2: params, Dense, nested child
               ' lifted program, attribute-only stale-trace probes with colliding hashes, attribute sub-modules in every'
               ' field order, lifted helper methods that create auto-named layers, nn.jit positional keyword arguments.'
               ' Round f: cond_rng (branches that draw rngs), nested_adoption (composition by attribute, depth >= 2), jit_process_history (draws after a jitted call do not depend on earlier uses in the process).'
-              ' Round g: no key is repeated after a cond whose branches draw different numbers of keys.')
+              ' Round g: no key is repeated after a cond whose branches draw different numbers of keys.'
+              ' Round h: cond_rng_deep (draws several scope levels below cond / switch in a sub-module used before), map_variables(init=True) initialising a body with rng draws (F79).')
 LEVEL_NOTE = ('nn.remat needs the jax.checkpoint compat alias. Under nn.jit random draws inside the lifted module differ from the plain '
               'program by design (fork_rngs): only determinism per call site is demanded there. map_variables follows the documented idiom '
               'init=self.is_initializing().')
@@ -644,6 +645,30 @@ def run_map_variables_init(ctx, i, rng):
       return
     ctx.op('nn.map_variables(init=True) at apply')
     ctx.check(close(want, got) and shapes(want) == shapes(got), 'map_variables:init_true_apply_differs', lambda: dict(case=desc))
+    # the call that INITIALISES: the output and the variables of init_with_output equal the plain module's, also when the
+    # body draws from an explicit rng stream (the pre-run that creates the mapped collection must not use up the draws)
+    class Noisy(nn.Module):
+      @nn.compact
+      def __call__(self, x):
+        y = nn.Dense(2)(x)
+        n = jax.random.normal(self.make_rng('noise'), y.shape)
+        return y + n + jax.random.normal(self.make_rng('noise'), y.shape) * 0.5
+
+    class OuterN(nn.Module):
+      lifted: bool
+
+      @nn.compact
+      def __call__(self, x):
+        cls = nn.map_variables(Noisy, mapped, init=True, mutable=trans_mutable) if self.lifted else Noisy
+        return cls(name='inner')(x) + jax.random.normal(self.make_rng('noise'), (1, 2))
+    rngs = {'params': jax.random.key(i), 'noise': jax.random.key(90 + i)}
+    yp, vp = OuterN(False).init_with_output(rngs, x)
+    yl, vl = OuterN(True).init_with_output(rngs, x)
+    ctx.op('nn.map_variables(init=True) at init with rng draws')
+    ctx.check(close(vp, vl) and shapes(vp) == shapes(vl), 'map_variables:init_true_init_variables_differ', lambda: dict(case=desc))
+    ctx.check(close(yp, yl), 'map_variables:init_true_init_output_differs:rng_draws', lambda: dict(case=desc))
+    ya, yb = OuterN(False).apply(vp, x, rngs=rngs), OuterN(True).apply(vp, x, rngs=rngs)
+    ctx.check(close(ya, yb), 'map_variables:init_true_apply_differs:rng_draws', lambda: dict(case=desc))
 
 
 def run_history(ctx, i, rng):
